@@ -31,6 +31,10 @@ func (r *Registry) PushBlob(ctx context.Context, repoName string, desc ociregist
 	if err != nil {
 		return ociregistry.Descriptor{}, fmt.Errorf("cannot read content: %v", err)
 	}
+	if desc.MediaType == "" {
+		// Only the Digest and Size fields of desc are significant.
+		desc.MediaType = "application/octet-stream"
+	}
 	if err := CheckDescriptor(desc, data); err != nil {
 		return ociregistry.Descriptor{}, fmt.Errorf("invalid descriptor: %w", err)
 	}
